@@ -48,9 +48,11 @@ Definition parse_digits (s : str) : option Z :=
    no other characters, overflow is an error *)
 Definition parse_int (signed : bool) (lo hi : Z) (s : str) : option Z :=
   let r := match s with
-           | 43 :: s' => parse_digits s'
-           | 45 :: s' => if signed then option_map Z.opp (parse_digits s') else None
-           | _ => parse_digits s
+           | c :: s' =>
+               if c =? 43 then parse_digits s'
+               else if c =? 45 then (if signed then option_map Z.opp (parse_digits s') else None)
+               else parse_digits s
+           | [] => None
            end in
   match r with
   | Some z => if (lo <=? z) && (z <=? hi) then Some z else None
@@ -87,13 +89,11 @@ Definition guid_text (g : list Z) : str :=
   hex_bytes (skipn 10 g).
 
 Definition parse_hyphenated (s : str) : option (list Z) :=
-  if negb (zlen s =? 36) then None else
-  match nth 8 s 0, nth 13 s 0, nth 18 s 0, nth 23 s 0 with
-  | 45, 45, 45, 45 =>
-      unhex (firstn 8 s ++ firstn 4 (skipn 9 s) ++ firstn 4 (skipn 14 s) ++ firstn 4 (skipn 19 s)
-             ++ skipn 24 s)
-  | _, _, _, _ => None
-  end.
+  if negb (zlen s =? 36) then None
+  else if (nth 8 s 0 =? 45) && (nth 13 s 0 =? 45) && (nth 18 s 0 =? 45) && (nth 23 s 0 =? 45) then
+    unhex (firstn 8 s ++ firstn 4 (skipn 9 s) ++ firstn 4 (skipn 14 s) ++ firstn 4 (skipn 19 s)
+           ++ skipn 24 s)
+  else None.
 
 Definition urn_prefix : str := zs "urn:uuid:".
 
@@ -103,10 +103,7 @@ Definition parse_guid (s : str) : option (list Z) :=
   if n =? 32 then unhex s
   else if n =? 36 then parse_hyphenated s
   else if n =? 38 then
-    match s with
-    | 123 :: s' => if nth 36 s' 0 =? 125 then parse_hyphenated (firstn 36 s') else None
-    | _ => None
-    end
+    if (nth 0 s 0 =? 123) && (nth 37 s 0 =? 125) then parse_hyphenated (firstn 36 (skipn 1 s)) else None
   else if n =? 45 then
     if str_eqb (firstn 9 s) urn_prefix then parse_hyphenated (skipn 9 s) else None
   else None.
@@ -133,25 +130,37 @@ Fixpoint b64_encode (bs : list Z) : str :=
       b64_char ((b mod 16) * 4 + c / 64) :: b64_char (c mod 64) :: b64_encode r
   end.
 
-Fixpoint b64_decode (s : str) : option (list Z) :=
-  match s with
-  | [] => Some []
-  | [w; x; 61; 61] =>
+Definition b64_quad (w x y z : Z) : option (list Z) :=
+  match b64_val w, b64_val x, b64_val y, b64_val z with
+  | Some p, Some q, Some r, Some t => Some [p * 4 + q / 16; (q mod 16) * 16 + r / 4; (r mod 4) * 64 + t]
+  | _, _, _, _ => None
+  end.
+(* the last group may end in one or two '=' *)
+Definition b64_last (w x y z : Z) : option (list Z) :=
+  if z =? 61 then
+    if y =? 61 then
       match b64_val w, b64_val x with
       | Some p, Some q => if q mod 16 =? 0 then Some [p * 4 + q / 16] else None
       | _, _ => None
       end
-  | [w; x; y; 61] =>
+    else
       match b64_val w, b64_val x, b64_val y with
       | Some p, Some q, Some r =>
           if r mod 4 =? 0 then Some [p * 4 + q / 16; (q mod 16) * 16 + r / 4] else None
       | _, _, _ => None
       end
+  else b64_quad w x y z.
+
+Fixpoint b64_decode (s : str) : option (list Z) :=
+  match s with
+  | [] => Some []
   | w :: x :: y :: z :: s' =>
-      match b64_val w, b64_val x, b64_val y, b64_val z, b64_decode s' with
-      | Some p, Some q, Some r, Some t, Some rest =>
-          Some (p * 4 + q / 16 :: (q mod 16) * 16 + r / 4 :: (r mod 4) * 64 + t :: rest)
-      | _, _, _, _, _ => None
+      match s' with
+      | [] => b64_last w x y z
+      | _ => match b64_quad w x y z, b64_decode s' with
+             | Some a, Some b => Some (a ++ b)
+             | _, _ => None
+             end
       end
   | _ => None
   end.
@@ -164,25 +173,28 @@ Definition MS_PER_DAY := 86400000.
 Definition DAY0 := 584694.
 Definition ERA_DAYS := 146097.
 
-(* day number (from 0000-03-01) -> (year, month, day) *)
-Definition civil_of_days (z : Z) : Z * Z * Z :=
-  let era := z / ERA_DAYS in
-  let doe := z mod ERA_DAYS in
+(* day of a 400-year era -> (year of era counted from March, month, day) *)
+Definition civil_of_doe (doe : Z) : Z * Z * Z :=
   let yoe := (doe - doe / 1460 + doe / 36524 - doe / 146096) / 365 in
   let doy := doe - (365 * yoe + yoe / 4 - yoe / 100) in
   let mp := (5 * doy + 2) / 153 in
   let d := doy - (153 * mp + 2) / 5 + 1 in
   let m := if mp <? 10 then mp + 3 else mp - 9 in
-  let y := yoe + era * 400 + (if m <=? 2 then 1 else 0) in
-  (y, m, d).
+  (yoe, m, d).
+Definition doe_of_civil (yoe m d : Z) : Z :=
+  let doy := (153 * (if 2 <? m then m - 3 else m + 9) + 2) / 5 + d - 1 in
+  yoe * 365 + yoe / 4 - yoe / 100 + doy.
+(* January and February belong to the previous March-based year *)
+Definition jf (m : Z) : Z := if m <=? 2 then 1 else 0.
+
+(* day number (from 0000-03-01) -> (year, month, day) *)
+Definition civil_of_days (z : Z) : Z * Z * Z :=
+  let '(yoe, m, d) := civil_of_doe (z mod ERA_DAYS) in
+  (yoe + (z / ERA_DAYS) * 400 + jf m, m, d).
 
 Definition days_of_civil (y m d : Z) : Z :=
-  let y' := if m <=? 2 then y - 1 else y in
-  let era := y' / 400 in
-  let yoe := y' mod 400 in
-  let doy := (153 * (if 2 <? m then m - 3 else m + 9) + 2) / 5 + d - 1 in
-  let doe := yoe * 365 + yoe / 4 - yoe / 100 + doy in
-  era * ERA_DAYS + doe.
+  let y' := y - jf m in
+  (y' / 400) * ERA_DAYS + doe_of_civil (y' mod 400) m d.
 
 Definition pad2 (n : Z) : str := [48 + n / 10 mod 10; 48 + n mod 10].
 Definition pad3 (n : Z) : str := [48 + n / 100 mod 10; 48 + n / 10 mod 10; 48 + n mod 10].
@@ -215,23 +227,21 @@ Fixpoint num_of (s : str) (acc : Z) : option Z :=
    offsets, other fraction lengths, leap seconds; those are outside the model) *)
 Definition parse_date_ms (s : str) : option Z :=
   let n := zlen s in
-  if negb ((n =? 24) || (n =? 20)) then None else
-  match nth 4 s 0, nth 7 s 0, nth 10 s 0, nth 13 s 0, nth 16 s 0 with
-  | 45, 45, 84, 58, 58 =>
-      let frac := if n =? 24
-                  then if (nth 19 s 0 =? 46) && (nth 23 s 0 =? 90) then num_of (firstn 3 (skipn 20 s)) 0 else None
-                  else if nth 19 s 0 =? 90 then Some 0 else None in
-      match num_of (firstn 4 s) 0, num_of (firstn 2 (skipn 5 s)) 0, num_of (firstn 2 (skipn 8 s)) 0,
-            num_of (firstn 2 (skipn 11 s)) 0, num_of (firstn 2 (skipn 14 s)) 0,
-            num_of (firstn 2 (skipn 17 s)) 0, frac with
-      | Some y, Some m, Some d, Some hh, Some mm, Some ss, Some f =>
-          if (1 <=? m) && (m <=? 12) && (1 <=? d) && (d <=? 31) && (hh <? 24) && (mm <? 60) && (ss <? 60)
-          then Some ((days_of_civil y m d - DAY0) * MS_PER_DAY + hh * 3600000 + mm * 60000 + ss * 1000 + f)
-          else None
-      | _, _, _, _, _, _, _ => None
-      end
-  | _, _, _, _, _ => None
-  end.
+  if negb ((n =? 24) || (n =? 20)) then None
+  else if negb ((nth 4 s 0 =? 45) && (nth 7 s 0 =? 45) && (nth 10 s 0 =? 84) && (nth 13 s 0 =? 58) && (nth 16 s 0 =? 58)) then None
+  else
+    let frac := if n =? 24
+                then if (nth 19 s 0 =? 46) && (nth 23 s 0 =? 90) then num_of (firstn 3 (skipn 20 s)) 0 else None
+                else if nth 19 s 0 =? 90 then Some 0 else None in
+    match num_of (firstn 4 s) 0, num_of (firstn 2 (skipn 5 s)) 0, num_of (firstn 2 (skipn 8 s)) 0,
+          num_of (firstn 2 (skipn 11 s)) 0, num_of (firstn 2 (skipn 14 s)) 0,
+          num_of (firstn 2 (skipn 17 s)) 0, frac with
+    | Some y, Some m, Some d, Some hh, Some mm, Some ss, Some f =>
+        if (1 <=? m) && (m <=? 12) && (1 <=? d) && (d <=? 31) && (hh <? 24) && (mm <? 60) && (ss <? 60)
+        then Some ((days_of_civil y m d - DAY0) * MS_PER_DAY + hh * 3600000 + mm * 60000 + ss * 1000 + f)
+        else None
+    | _, _, _, _, _, _, _ => None
+    end.
 
 (* DateTime::parse_from_rfc3339: clip to [epoch, endtimes] *)
 Definition parse_date (s : str) : option Z :=
